@@ -464,15 +464,20 @@ func (g *gen) stmt(c *ctx, nest int) *Stmt {
 	case k < 75: // return
 		return g.ret(c)
 	case nest < 2:
-		head := core.Pick(r, []string{"if", "if", "ifelse", "switch", "for", "block"})
+		// every statement kind that can hold a return statement (the resolver's traversals must enter all of
+		// them): if / else / else-if chains, expression and type switches, select, for, range, blocks - and any
+		// of them under a label
+		head := core.Pick(r, []string{"if", "if", "ifelse", "elseif", "switch", "typeswitch", "select", "for", "range", "block"})
 		nb := 1
 		switch head {
 		case "ifelse":
 			nb = 2
-		case "switch":
+		case "elseif":
+			nb = 2 + r.Intn(2)
+		case "switch", "typeswitch", "select":
 			nb = 1 + r.Intn(3)
 		}
-		s := &Stmt{K: "group", Head: head}
+		s := &Stmt{K: "group", Head: head, Label: r.Chance(30)}
 		for i := 0; i < nb; i++ {
 			savedL, savedC := len(c.scoped), len(c.clos)
 			var b []*Stmt
@@ -648,6 +653,7 @@ func generate(r *core.RNG, mode string) *Prog {
 func callsOf(p *Prog) []CallIR {
 	usedFromA := map[int]bool{}
 	parenFromA := map[int]bool{}
+	seenLit := map[int]bool{}
 	var walkE func(e *Expr)
 	var walkS func(ss []*Stmt)
 	walkE = func(e *Expr) {
@@ -662,6 +668,15 @@ func callsOf(p *Prog) []CallIR {
 				if f.Pkg == pkgB && !f.Method && e.Fun == "(b."+f.Name+")" {
 					parenFromA[i] = true
 				}
+			}
+		}
+		// a function literal is part of the program only where it is printed: follow the literal expression
+		// (a literal left in the table after its only use was removed - malform, Shrink - has no source text,
+		// so a call of b.F in its body registers nothing in package a)
+		if e.K == "lit" && e.F >= 0 && e.F < len(p.Funcs) && p.Funcs[e.F].IsLit && !seenLit[e.F] {
+			seenLit[e.F] = true
+			if p.Funcs[e.F].Pkg == pkgA {
+				walkS(p.Funcs[e.F].Body)
 			}
 		}
 		for _, a := range e.Args {
@@ -679,7 +694,7 @@ func callsOf(p *Prog) []CallIR {
 		}
 	}
 	for _, f := range p.Funcs {
-		if f.Pkg == pkgA {
+		if f.Pkg == pkgA && !f.IsLit {
 			walkS(f.Body)
 		}
 	}
